@@ -83,7 +83,7 @@ fn gen(rng: &mut Rng, tier: Tier) -> Vec<Case> {
         let base = match rng.below(4) { 0 => u64::MAX - 100_000, 1 => rng.below(1 << 45), _ => 0 };
         let zl = rng.chance(1, 2);
         let mut h = gen_hist(rng, n, 5000, zl, true, base);
-        if base == 0 && rng.chance(1, 4) { h.lift_to_top(rng.below(3)); }
+        if base == 0 && rng.chance(1, 4) { h.lift_to_top(rng.below(4)); }
         let a = around(&h.endpoints());
         let mut qs = vec![];
         for _ in 0..40 {
